@@ -2,7 +2,7 @@ import QuillModel.Backend.LiftRingPop
 /-!
 # The ring potential (part 3): start states, every schedule, and the bound by statement id
 
-`InvR` holds in every freshly started system running the repaired replay callback, `InvR.closed` carries it through every
+`InvRg` holds in every freshly started system running the repaired replay callback, `InvRg.closed` carries it through every
 schedule, and with the invariants of bundle A (`Inv`: conservation, unique ids, pop-history merge) the grants of one
 statement id collapse to the multiplicity of the sink in that statement's logger.
 -/
@@ -12,18 +12,18 @@ open Backend Spsc
 theorem sumR_zero (f : Nat → Nat) (n : Nat) (h : ∀ j, j < n → f j = 0) : sumR f n = 0 :=
   sumR_extend f 0 n (Nat.zero_le _) (fun j _ hj => h j hj)
 
-theorem Fresh.invR {s : BSt} (h : Fresh s) (hc : s.cfg.replayCatchesPerEvent = true) : InvR s := by
+theorem Fresh.invRg {s : BSt} (h : Fresh s) (hc : s.cfg.replayCatchesPerEvent = true) : InvRg s := by
   refine ⟨hc, fun i r hr => ?_, fun sid id => ?_⟩
   · rw [h.rings i] at hr; cases hr
   · have h1 : bwcount s.log sid id = 0 := by rw [h.log]; rfl
     have h2 : ringPot s sid id = 0 := sumR_zero _ _ (fun j _ => by simp [lgCnt, h.rings j])
     omega
 
-theorem InvR.run {s : BSt} (h : InvR s) (ops : List Op) : InvR (runOps s ops) := runOps_closed InvR.closed ops s h
+theorem InvRg.run {s : BSt} (h : InvRg s) (ops : List Op) : InvRg (runOps s ops) := runOps_closed InvRg.closed ops s h
 
 /-- **at most once, every level.** An `Event::Log` statement (ordinary or backtrace) accepted by some queue is handed to
     sink `sid` at most as often as `sid` occurs in its logger's sink list — over the whole history, replays included. -/
-theorem InvR.at_most_once {s : BSt} (h : Inv s) (hr : InvR s) (i : Nat) (st : Stmt) (hm : st ∈ (s.th i).accepted)
+theorem InvRg.at_most_once {s : BSt} (h : Inv s) (hr : InvRg s) (i : Nat) (st : Stmt) (hm : st ∈ (s.th i).accepted)
     (hk : isLogKind st.kind = true) (sid : Nat) : bwcount s.log sid st.id ≤ (s.lgOf st.lg).sinks.count sid := by
   refine Nat.le_trans (Nat.le_trans (Nat.le_add_right _ _) (hr.bound sid st.id)) ?_
   unfold btBound
@@ -59,7 +59,7 @@ theorem InvR.at_most_once {s : BSt} (h : Inv s) (hr : InvR s) (i : Nat) (st : St
 
 /-- nothing is handed to a sink before the pop: an `Event::Log` statement still in a transit buffer or in a queue has no
     `write` event of any level in the whole history -/
-theorem InvR.unpopped_unwritten {s : BSt} (h : Inv s) (hr : InvR s) (i : Nat) (st : Stmt)
+theorem InvRg.unpopped_unwritten {s : BSt} (h : Inv s) (hr : InvRg s) (i : Nat) (st : Stmt)
     (hm : st ∈ (s.th i).buf ++ (s.th i).qStmts) (hk : isLogKind st.kind = true) (sid : Nat) :
     bwcount s.log sid st.id = 0 := by
   have hb := hr.bound sid st.id
